@@ -1,12 +1,16 @@
 From V Require Import Base.Bytes Base.Obs Base.Val Model.Chain Model.Truthy.
 Inductive case :=
 | CChain (repeat : nat) (l : list node)           (* sibling list, rendered [repeat] times (inside a v-for) *)
+| CChainT (repeat : nat) (vis : list id) (l : list node)
 | CTruthyFn (v : val)                             (* IsTruthy itself *)
 | CPosition (p : position) (o : option val).      (* the value observed at a position *)
 Fixpoint rep {A} (n : nat) (l : list A) : list A := match n with O => [] | S k => l ++ rep k l end.
 Definition run (c : case) : obs :=
   match c with
   | CChain n l => OL (map ON (rep n (E l)))
+  | CChainT n vis l =>   (* with the rendered text: of the non-element nodes only those written as visible text can be observed *)
+      OL (map (fun x : bool * id => if fst x then ON (snd x) else OL [OS "t"; ON (snd x)])
+              (rep n (filter (fun x : bool * id => fst x || existsb (Nat.eqb (snd x)) vis) (ET l))))
   | CTruthyFn v => OB (truthy v)
   | CPosition p o => OB (effect p o)
   end.
